@@ -602,7 +602,12 @@ class CompleteEnv:
         real, sched, State = self.real, self.sched, self.State
         t, target, runid, outcome = what['now'], what['target'], what['runid'], what['outcome']
         self.clock.now = from_us(t)
-        job = FakeJob(what['task'], doing=[target] if target != '__all__' else ['T1', 'T2'])
+        # `doing` of the node found in the queue when the report arrives: normally it lists the target; after a
+        # rebuild / re-organize of the same tag (fresh node), a purge, or a second report it does not
+        held = what.get('doing', 'has')
+        doing = {'has': [target] if target != '__all__' else ['T1', 'T2'], 'empty': [],
+                 'other': ['T9']}[held]
+        job = FakeJob(what['task'], todo=['T1'] if held != 'has' else (), doing=doing)
         sched.que = [job]
         del sched.err[:], sched.suc[:]
         state = {True: State.success, False: State.failure, None: State.invalid}[outcome]
@@ -638,19 +643,27 @@ class CompleteEnv:
                 res.hit('C18:complete-not-found',
                         f'the entry recorded for {job.tag}[{target}] ({state.name}) is not returned by '
                         f'find(succeeded={outcome}) around its completion time', what)
-        res.count('complete:' + what['via'] + ':' + state.name)
-        res.case(('complete', what['via'], state.name, target), nontrivial=True)
+        res.count('complete:' + what['via'] + ':' + state.name + ('' if held == 'has' else ':not-doing'))
+        res.case(('complete', what['via'], state.name, target, held), nontrivial=True)
 
 
 def run_complete(real, res, r, n):
     env = CompleteEnv(real)
     try:
         t = inst(2024, 2, 28, 22)
+        for via in ('complete', 'reply'):
+            for held in ('has', 'empty', 'other'):
+                for target in ('T1', '__all__'):
+                    for outcome in (True, False, None):
+                        t += 3600 * 10 ** 6
+                        env.once(res, {'kind': 'complete', 'via': via, 'now': t, 'target': target, 'task': 'net.alg',
+                                       'outcome': outcome, 'runid': 7, 'doing': held})
         for _ in range(n):
             t += r.choice([1, 10 ** 6, 3600 * 10 ** 6, DAY // 2, DAY, 29 * DAY])
             env.once(res, {'kind': 'complete', 'via': r.choice(['complete', 'reply']), 'now': t,
                            'target': r.choice(['T1', 'T2', '__all__']), 'task': r.choice(['net.alg', 'net.beta']),
-                           'outcome': r.choice([True, True, False, None]), 'runid': r.randrange(1, 50)})
+                           'outcome': r.choice([True, True, False, None]), 'runid': r.randrange(1, 50),
+                           'doing': r.choice(['has', 'has', 'empty', 'other'])})
     finally:
         env.close()
 
